@@ -6,16 +6,17 @@ i.e. by division arithmetic, MSB first) that shares no code with the model's mas
 -/
 import Driver.Common
 import Cascette.Model.Manifest
+import Cascette.Model.ManifestExt
 import Cascette.Spec.TagSets
 open Cascette Drv
-open Cascette.Model.Manifest
+open Cascette.Model.Manifest Cascette.Model.Serial Cascette.Model.ManifestExt
 
 structure St where
   mode : Nat := 0              -- 0 none, 1 install, 2 download, 3 size
   ib : IBuilder := IBuilder.empty
   db : Option DBuilder := none
-  stags : List Tag := []
-  sentries : Nat := 0
+  sb : SBuilder := SBuilder.new
+  sf : Option SFile := none
   im : Option IManifest := none
   dm : Option DManifest := none
   bytes : Bytes := []
@@ -34,6 +35,8 @@ def tagLine (n : Nat) (t : Tag) : String :=
   hexOf t.name ++ ":" ++ toString t.typ ++ ":" ++ idxList ((List.range n).filter (hasFile t.mask))
 
 def maskLine (t : Tag) : String := hexOf t.name ++ ":" ++ toString t.typ ++ ":" ++ hexOf t.mask
+
+def joinC (l : List String) : String := if l.isEmpty then "-" else ",".intercalate l
 
 def joinOr (l : List String) : String := if l.isEmpty then "-" else " ".intercalate l
 
@@ -132,7 +135,7 @@ def handle (s : St) : List String → St × String
         match s.db with
         | some b => ({ s with db := some (b.addTag name typ) }, "ok")
         | none => (s, "no-builder")
-      else if s.mode == 3 then ({ s with stags := s.stags ++ [⟨name, typ, []⟩] }, "ok")
+      else if s.mode == 3 then ({ s with sb := s.sb.addTag name typ }, "ok")
       else (s, "bad-op")
     | _, _ => (s, "bad-op")
   | ["file", path, key, size] =>
@@ -329,13 +332,96 @@ def handle (s : St) : List String → St × String
   | ["stagfile", ti, fi] =>
     match ti.toNat?, fi.toNat? with
     | some ti, some fi =>
-      if s.mode == 3 then exc s (sizeTagFile s.stags ti fi) fun ts => { s with stags := ts } else (s, "bad-op")
+      if s.mode == 3 then
+        match s.sb.tagFile ti fi with
+        | .ok b => ({ s with sb := b }, "ok")
+        | .error e => (s, e.str)
+      else (s, "bad-op")
     | _, _ => (s, "bad-op")
-  | ["sentry"] => if s.mode == 3 then ({ s with sentries := s.sentries + 1 }, "ok") else (s, "bad-op")
+  | ["sentry"] =>
+    -- legacy form: the k-th entry has key 00 00 00 00 00 ++ be32 k and esize 3k
+    if s.mode == 3 then
+      let k := s.sb.entries.length + 1
+      ({ s with sb := s.sb.addEntry (List.replicate 5 0 ++ be32 k) (3 * k) }, "ok")
+    else (s, "bad-op")
+  | ["sentry", key, esize] =>
+    match parseHex key, esize.toNat? with
+    | some k, some e => if s.mode == 3 then ({ s with sb := s.sb.addEntry k e }, "ok") else (s, "bad-op")
+    | _, _ => (s, "bad-op")
+  | ["sver", v] =>
+    match v.toNat? with
+    | some v => if s.mode == 3 then ({ s with sb := { s.sb with version := v } }, "ok") else (s, "bad-op")
+    | none => (s, "bad-op")
+  | ["sekey", v] =>
+    match v.toNat? with
+    | some v => if s.mode == 3 then ({ s with sb := { s.sb with ekeySize := v } }, "ok") else (s, "bad-op")
+    | none => (s, "bad-op")
+  | ["stagcount", v] =>
+    match v.toNat? with
+    | some v => if s.mode == 3 then ({ s with sb := { s.sb with tagCount := v } }, "ok") else (s, "bad-op")
+    | none => (s, "bad-op")
+  | ["sesize", v] =>
+    match v.toNat? with
+    | some v => if s.mode == 3 then ({ s with sb := { s.sb with esizeBytes := v } }, "ok") else (s, "bad-op")
+    | none => (s, "bad-op")
   | ["sbuild"] =>
     if s.mode == 3 then
-      (s, toString s.sentries ++ " " ++ joinOr ((sizeBuildTags s.stags s.sentries).map maskLine))
+      match s.sb.build with
+      | .ok f => (s, toString f.entries.length ++ " " ++ joinOr (f.tags.map maskLine))
+      | .error e => (s, e.str)
     else (s, "bad-op")
+  | ["sser"] =>
+    if s.mode == 3 then
+      match s.sb.build with
+      | .error e => (s, e.str)
+      | .ok f =>
+        match buildSFile f with
+        | none => (s, "err:validate")
+        | some bytes => ({ s with bytes := bytes, sf := parseSFile bytes }, hexOf bytes)
+    else (s, "bad-op")
+  | ["sreparse"] =>
+    if s.mode == 3 then
+      match s.sf with
+      | some f =>
+        (s, "ok v=" ++ toString f.version ++ " tags=" ++ toString f.tags.length ++ " entries=" ++
+            toString f.entries.length ++ " total=" ++ toString f.total ++ " width=" ++ toString f.width ++
+            " same=" ++ (if buildSFile f == some s.bytes then "1" else "0"))
+      | none => (s, "err")
+    else (s, "bad-op")
+  | ["sq", "tags"] =>
+    match s.sf with
+    | some f => (s, joinOr (f.tags.map (tagLine f.entries.length)))
+    | none => (s, "no-manifest")
+  | ["sq", "sizes"] =>
+    match s.sf with
+    | some f => (s, idxList (f.entries.map (·.esize)))
+    | none => (s, "no-manifest")
+  | ["utf8", h] =>
+    match parseHex h with
+    | some bs => (s, if validUtf8 bs then "1" else "0")
+    | none => (s, "bad-op")
+  | ["parse", h] =>
+    -- the parsers AS WRITTEN (UTF-8 checked inside the readers) on arbitrary bytes
+    match parseHex h with
+    | some bs =>
+      match bs with
+      | 0x49 :: 0x4E :: _ =>
+        match parseInstallV bs with
+        | some m => (s, "ok tags=" ++ toString m.tags.length ++ " entries=" ++ toString m.entries.length ++
+            " names=" ++ joinC (m.tags.map (hexOf ·.name) ++ m.entries.map (hexOf ·.path)))
+        | none => (s, "err")
+      | 0x44 :: 0x4C :: _ =>
+        match parseDownloadV bs with
+        | some m => (s, "ok tags=" ++ toString m.tags.length ++ " entries=" ++ toString m.entries.length ++
+            " names=" ++ joinC (m.tags.map (hexOf ·.name)))
+        | none => (s, "err")
+      | 0x44 :: 0x53 :: _ =>
+        match parseSFile bs with
+        | some f => (s, "ok tags=" ++ toString f.tags.length ++ " entries=" ++ toString f.entries.length ++
+            " names=" ++ joinC (f.tags.map (hexOf ·.name)) ++ " total=" ++ toString f.total)
+        | none => (s, "err")
+      | _ => (s, "err")
+    | none => (s, "bad-op")
   | _ => (s, "bad-op")
 
 def main : IO Unit := do
